@@ -12,6 +12,7 @@ Definition write_all (records : list aval) : list wop := map OWrite records.
 
 Lemma submitted_write_all l : submitted (write_all l) = l.
 Proof. unfold submitted, write_all. induction l as [|a l IH]; cbn [map flat_map submitted_of app]; [reflexivity|]. rewrite IH. reflexivity. Qed.
+Print Assumptions submitted_write_all.
 
 (** for every codec with [decompress (compress b) = b], every schema/env, every list of typed records,
     EVERY sync_interval (any integer), every 16-byte marker and every metadata map: the reader, given
